@@ -31,6 +31,7 @@ func runC03(p *Prog, r *Report) {
 	r.Min("C03.R6", 3)
 	r.Min("C03.R7", 3)
 	r.Min("C03.R8", 4)
+	r.Min("C03.R9", 8)
 	checkFilterProcessorPairs(p, r)
 	checkFilterInstalled(p, r)
 	checkRecordProvenance(p, r)
@@ -47,6 +48,19 @@ func runC03(p *Prog, r *Report) {
 	}
 	checkFilterTranscription(p, r)
 	checkBPFBuilders(p, r)
+	// R9: every frame the socket delivers reaches the processor exactly once (C20.R1/R2 re-evaluated)
+	sub20 := NewReport("C03", r.Tier)
+	for _, rc := range p.Implementers(modPath+"/pkg/packet", "Receiver", "ReceivePackets") {
+		checkReceiver(p, sub20, rc)
+	}
+	for _, o := range sub20.Obs {
+		if o.Rule == "C20.R1" || o.Rule == "C20.R2" {
+			o2 := *o
+			o2.Rule = "C03.R9"
+			o2.Text = "every captured frame is handed to the processor: " + o.Text
+			r.Obs = append(r.Obs, &o2)
+		}
+	}
 }
 
 // packetConfigCtor finds the variadic-options constructor of the struct holding bpfFilter.
